@@ -649,3 +649,156 @@ func VPH_mainStdoutFaults() {
 	}
 	vp_Reach("end")
 }
+
+// VPH_mainCrossFamily (C14): the four option families are independent of each
+// other. Each family contributes at most one command-line option here (the
+// sequences within a family are VPH_mainOptions' subject), every gitconfig key
+// is absent, valid or invalid, and each setting that reaches the scan and the
+// renderer must be "the family's option, else its gitconfig key, else the
+// default" - whatever the other families say (e.g. sizer.names with --json).
+func VPH_mainCrossFamily() {
+	if vp_Native() {
+		vp_Reach("end")
+		return
+	}
+	var args []string
+	wantThr, wantNS, wantProg := 1.0, sizes.NameStyleFull, false
+	thrOpt := vp_Choice("threshold option", 2) == 1
+	if thrOpt {
+		args = append(args, "--critical")
+		wantThr = 30
+	}
+	nsOpt := vp_Choice("names option", 2) == 1
+	if nsOpt {
+		args = append(args, "--names=none")
+		wantNS = sizes.NameStyleNone
+	}
+	jsonMode := vp_Choice("json options", 3) // 0 table, 1 -j, 2 -j --json-version=2
+	switch jsonMode {
+	case 1:
+		args = append(args, "-j")
+	case 2:
+		args = append(args, "-j", "--json-version=2")
+	}
+	progOpt := vp_Choice("progress option", 2) == 1
+	if progOpt {
+		args = append(args, "--progress")
+		wantProg = true
+	}
+	cfg := &vpConfig{consulted: map[string]int{}}
+	cfg.threshold = vp_Choice("cfg.threshold", 3)
+	cfg.names = vp_Choice("cfg.names", 3)
+	cfg.jsonVersion = vp_Choice("cfg.jsonVersion", 3)
+	cfg.progress = vp_Choice("cfg.progress", 2)
+	cap := &vpCaptured{}
+	vpInstallMainStubs(cfg, cap, "refs/heads/x")
+	var stdout, stderr bytes.Buffer
+	err := mainImplementation(context.Background(), &stdout, &stderr, args)
+
+	wantErr := false
+	if !thrOpt {
+		switch cfg.threshold {
+		case 1:
+			wantThr = 0.5
+		case 2:
+			wantErr = true
+		}
+	}
+	if !nsOpt {
+		switch cfg.names {
+		case 1:
+			wantNS = sizes.NameStyleHash
+		case 2:
+			wantErr = true
+		}
+	}
+	jsonVer := 1
+	switch jsonMode {
+	case 1:
+		switch cfg.jsonVersion {
+		case 1:
+			jsonVer = 2
+		case 2:
+			wantErr = true
+		}
+	case 2:
+		jsonVer = 2
+	}
+	if !progOpt && cfg.progress == 1 {
+		wantProg = true
+	}
+	vp_Assert((err != nil) == wantErr, "error exactly for an invalid gitconfig value whose family has no option on the command line")
+	if err != nil || wantErr {
+		vp_Assert(stdout.Len() == 0, "no report on error")
+		vp_Reach("error")
+		return
+	}
+	vp_Assert(cap.scanStyle == wantNS, "names (as used by the scan): the option, else sizer.names, else full - in every output format")
+	vp_Assert(cap.progress == wantProg, "progress: the option, else sizer.progress, else off")
+	switch {
+	case jsonMode == 0:
+		vp_Assert(cap.output == "table" && cap.outputs == 1 && vp_JSONCalls() == 0, "table unless --json")
+		vp_Assert(float64(cap.threshold) == wantThr && cap.nameStyle == wantNS, "the table gets the effective threshold and name style")
+	case jsonVer == 2:
+		vp_Assert(cap.output == "json2" && cap.outputs == 1, "JSON v2")
+		vp_Assert(float64(cap.threshold) == wantThr && cap.nameStyle == wantNS, "JSON v2 gets the effective threshold and name style")
+	default:
+		vp_Assert(cap.outputs == 0 && vp_JSONCalls() == 1, "JSON v1 = encoding/json of the measurements")
+	}
+	vp_Reach("ok")
+}
+
+// VPH_mainShorthands (C06, last sentence): --branches, --tags, --remotes,
+// --notes, --stash and their --no- forms are fixed rules - the prefix
+// refs/heads, refs/tags, refs/remotes, refs/notes (matching at a '/' boundary,
+// so also the reference named exactly like the prefix) and the exact name
+// refs/stash - and not the like-named refgroups: gitconfig entries that
+// augment the built-in groups do not change them.
+func VPH_mainShorthands() {
+	if vp_Native() {
+		vp_Reach("end")
+		return
+	}
+	type sh struct {
+		flag, group, rule string
+		exact             bool
+	}
+	menu := []sh{{"branches", "branches", "refs/heads", false}, {"tags", "tags", "refs/tags", false}, {"remotes", "remotes", "refs/remotes", false},
+		{"notes", "notes", "refs/notes", false}, {"stash", "stash", "refs/stash", true}}
+	s := menu[vp_Choice("shorthand", len(menu))]
+	inc := vp_Choice("negated", 2) == 0
+	arg := "--" + s.flag
+	if !inc {
+		arg = "--no-" + s.flag
+	}
+	cfg := &vpConfig{consulted: map[string]int{}}
+	switch vp_Choice("gitconfig", 3) {
+	case 1:
+		cfg.entries = []git.ConfigEntry{{Key: "refgroup." + s.group + ".exclude", Value: s.rule + "/wip"}}
+	case 2:
+		cfg.entries = []git.ConfigEntry{{Key: "refgroup." + s.group + ".include", Value: "refs/other"}}
+	}
+	// the probe name: the rule's own text or a configured name, followed by 0..2 free bytes
+	base := []string{s.rule, s.rule + "/wip", "refs/other"}[vp_Choice("probe", 3)]
+	tail := vp_Str("tail", vp_Choice("taillen", 3))
+	vp_AssumeASCII(tail)
+	for i := 0; i < len(tail); i++ {
+		vp_Assume(tail[i] != '\n')
+	}
+	probe := base + tail
+	cap := &vpCaptured{}
+	vpInstallMainStubs(cfg, cap, probe)
+	var stdout, stderr bytes.Buffer
+	err := mainImplementation(context.Background(), &stdout, &stderr, []string{arg})
+	vp_Assert(err == nil, "a shorthand is a valid selection")
+	if err != nil {
+		return
+	}
+	matches := probe == s.rule
+	if !s.exact && len(probe) > len(s.rule) && probe[:len(s.rule)] == s.rule && probe[len(s.rule)] == '/' {
+		matches = true
+	}
+	// a single option: references it matches get its polarity, the others the opposite
+	vp_Assert(cap.walkProbe == (matches == inc), "the shorthand is its fixed prefix / exact-name rule, whatever gitconfig says about the like-named refgroup")
+	vp_Reach("end")
+}
